@@ -124,6 +124,11 @@ func pick(class, k int) int {
 		return k
 	}
 	lst, ok := classCache[class]
+	if !ok && class == 4 {
+		lst = featureCover()
+		classCache[class] = lst
+		ok = true
+	}
 	if !ok {
 		reg := tl.VerifRegistry()
 		for i, id := range structIDs() {
@@ -163,6 +168,53 @@ func pick(class, k int) int {
 		return 1 << 30
 	}
 	return lst[k]
+}
+
+// featureCover (class 4): a greedy cover of the distinct field shapes that occur in the registry - every
+// combination of (kind, element kind, conditional?, stored in the flag bit?, shares its bit?) is represented by
+// the first two constructors that exhibit it, so that rarely used encodings (a conditional full Bool, a
+// conditional double, vectors of bare ints, ...) are in every quick run.
+func featureCover() []int {
+	reg := tl.VerifRegistry()
+	seen := map[string]int{}
+	var lst []int
+	for i, id := range structIDs() {
+		pt := reg[id]
+		if pt.Kind() != reflect.Ptr || pt.Elem().Kind() != reflect.Struct {
+			continue
+		}
+		st := pt.Elem()
+		bits := map[int]int{}
+		for _, fi := range condFields(st) {
+			bits[fieldTag(st.Field(fi)).bit]++
+		}
+		take := false
+		for fi := 0; fi < st.NumField(); fi++ {
+			f := st.Field(fi)
+			ti := fieldTag(f)
+			feat := f.Type.Kind().String()
+			if f.Type.Kind() == reflect.Slice || f.Type.Kind() == reflect.Ptr {
+				feat += "/" + f.Type.Elem().Kind().String()
+			}
+			if ti.cond {
+				feat += "/cond"
+				if ti.inBit {
+					feat += "/inbit"
+				}
+				if bits[ti.bit] > 1 {
+					feat += "/shared"
+				}
+			}
+			if seen[feat] < 2 {
+				seen[feat]++
+				take = true
+			}
+		}
+		if take {
+			lst = append(lst, i)
+		}
+	}
+	return lst
 }
 
 func H_C01_class(class, k, pat, depth, variant int) { H_C01_rt(pick(class, k), pat, depth, variant) }
